@@ -697,4 +697,206 @@ theorem history_nst (w : World) (h : List WCmd) : (runHistory w h).nst = w.nst :
   | nil => rfl
   | cons c cs ih => simp only [List.foldl_cons]; rw [ih, step_nst]
 
+/-! ## the database after a command that was not killed is the database of its `Proc` -/
+
+theorem filter_eq_self_of {α : Type} (l : List α) (q : α → Bool) (h : ∀ x ∈ l, q x = true) : l.filter q = l :=
+  List.filter_eq_self.mpr h
+
+/-- a `Database` call that finds nothing to write leaves the files as they are, literally -/
+theorem applyDb_eq_of_not_writes (e : Eff) (db : Spec) (hdb : NoDangling db) (h : effWrites db e = false)
+    (hk : e.isDb = true) : applyDb e db = db := by
+  cases e with
+  | declare d tag => simp [effWrites] at h
+  | undeclare s n v f =>
+    simp only [effWrites] at h
+    simp only [applyDb, Spec.delDecl]
+    have h1 : db.decls.filter (fun x => !(x.hasKey s n v f)) = db.decls := by
+      apply filter_eq_self_of
+      intro x hx
+      cases hxk : x.hasKey s n v f with
+      | false => rfl
+      | true =>
+        exfalso
+        have : db.hasDecl s n v f = true := Spec.hasDecl_iff.mpr ⟨x, hx, hxk⟩
+        rw [h] at this; cases this
+    have h2 : db.tags.filter (fun x => !(x.pointsAt s n v f)) = db.tags := by
+      apply filter_eq_self_of
+      intro r hr
+      cases hp : r.pointsAt s n v f with
+      | false => rfl
+      | true =>
+        exfalso
+        have hp' := TagRec.pointsAt_iff.mp hp
+        have := hdb r hr
+        rw [hp'.1, hp'.2.1, hp'.2.2.1, hp'.2.2.2, h] at this
+        cases this
+    rw [h1, h2]
+  | assign s t n f v => simp only [effWrites] at h; simp [applyDb, Spec.assign, h]
+  | unassign s t n f =>
+    simp only [effWrites] at h
+    simp only [applyDb, Spec.delTag]
+    have : db.tags.filter (fun x => !(x.hasKey s t n f)) = db.tags := by
+      apply filter_eq_self_of
+      intro r hr
+      cases hp : r.hasKey s t n f with
+      | false => rfl
+      | true =>
+        exfalso
+        have : db.hasTag s t n f = true := Spec.hasTag_iff.mpr ⟨r, hr, hp⟩
+        rw [h] at this; cases this
+    rw [this]
+  | rmTree _ => simp [Eff.isDb] at hk
+
+theorem applyDbW_db_eq (w : World) (e : Eff) (hdb : NoDangling w.db) : (applyDbW w e).db = applyDb e w.db := by
+  unfold applyDbW
+  cases e with
+  | rmTree d => rfl
+  | declare d tag => simp [effKey, effWrites]
+  | undeclare s n v f =>
+    simp only [effKey]
+    split
+    · rfl
+    · rename_i hw; exact (applyDb_eq_of_not_writes _ _ hdb (by simpa using hw) rfl).symm
+  | assign s t n f v =>
+    simp only [effKey]
+    split
+    · rfl
+    · rename_i hw; exact (applyDb_eq_of_not_writes _ _ hdb (by simpa using hw) rfl).symm
+  | unassign s t n f =>
+    simp only [effKey]
+    split
+    · rfl
+    · rename_i hw; exact (applyDb_eq_of_not_writes _ _ hdb (by simpa using hw) rfl).symm
+
+theorem foldl_applyW_db_eq (fixed : Bool) (u : User) (es : List Eff) (wm : World × Spec) (hdb : DbInv wm.1.db) :
+    (es.foldl (applyW fixed u) wm).1.db = es.foldl (fun c e => applyDb e c) wm.1.db := by
+  induction es generalizing wm with
+  | nil => rfl
+  | cons e es ih =>
+    simp only [List.foldl_cons]
+    have h1 : (applyW fixed u wm e).1.db = applyDb e wm.1.db := by
+      simp only [applyW]
+      rw [(applySaveW_db _ _ _ _ _).1]
+      exact applyDbW_db_eq _ _ hdb.nd
+    rw [ih _ (h1 ▸ hdb.apply e), h1]
+
+/-- **The structure of a command that is not killed**: it runs `Db.run` from a view that agrees with the files
+on the native flavor of every stack of the path and shows nothing that the files do not hold; its outcome is
+that run's outcome and the files afterwards are that run's database. -/
+theorem step_run {w : World} (h : CacheInv w) (u : User) (c : Cmd) :
+    ∃ m : Spec, ViewInv w.nst c.self m w.db ∧
+      (stepG true w (.run u c none)).out = (run w.nst c ⟨w.db, m, w.dirs, []⟩).1 ∧
+      (stepG true w (.run u c none)).w.db = (run w.nst c ⟨w.db, m, w.dirs, []⟩).2.db := by
+  simp only [stepG]
+  obtain ⟨_, hv⟩ := load_inv h u c.self
+  obtain ⟨hdb, hdirs, _⟩ := load_db w u c.self
+  generalize load w u c.self = l at hv hdb hdirs
+  obtain ⟨m, fl, w1⟩ := l
+  dsimp only at hv hdb hdirs ⊢
+  refine ⟨m, hv, by rw [hdb, hdirs], ?_⟩
+  unfold replay
+  dsimp only
+  rw [foldl_applyW_db_eq true u _ (w1, m) (by dsimp only; rw [hdb]; exact h.dbinv)]
+  dsimp only
+  rw [hdb, hdirs]
+  have hb := run_base w.nst c ⟨w.db, m, w.dirs, []⟩
+  simp only [Proc.db]
+  rw [hb.1]
+
+/-! ## the view shows nothing that the files do not hold -/
+
+theorem loadStack_sub {w : World} (h : CacheInv w) (u : User) (self : Flav) {s : Nat} (hs : s < w.nst) :
+    ∀ d ∈ (loadStack w u self s).view.decls, d ∈ w.db.decls := by
+  have hsnap : ∀ d ∈ (snapshot w.db s).decls, d ∈ w.db.decls := by
+    intro d hd; simp only [snapshot, List.mem_filter] at hd; exact hd.1
+  unfold loadStack
+  dsimp only
+  split
+  · exact hsnap
+  · rename_i cf hfind
+    have hmem : cf ∈ w.caches := List.mem_of_find?_eq_some hfind
+    have hp := List.find?_some hfind
+    simp only [Bool.and_eq_true, beq_iff_eq] at hp
+    obtain ⟨⟨_, hst⟩, _⟩ := hp
+    split
+    · rename_i hacc
+      intro d hd
+      have hag := accepts_agree h hmem (hst ▸ hs) hacc
+      obtain ⟨hconf, _⟩ := h.wf cf hmem (hst ▸ hs)
+      exact ((hag d.name).1 d (hconf.1 d hd).1 (hconf.1 d hd).2 rfl).mp hd
+    · exact hsnap
+
+theorem loadFrom_sub (u : User) (self : Flav) (ss : List Nat) (m : Spec) (fl : List (List Flav)) {w : World}
+    (h : CacheInv w) (hss : ∀ s ∈ ss, s < w.nst) (hm : ∀ d ∈ m.decls, d ∈ w.db.decls) :
+    ∀ d ∈ (loadFrom u self ss m fl w).1.decls, d ∈ w.db.decls := by
+  induction ss generalizing m fl w with
+  | nil => simpa [loadFrom] using hm
+  | cons s ss ih =>
+    simp only [loadFrom]
+    obtain ⟨hinv, _, _, _⟩ := loadStack_inv h u self (hss s (by simp))
+    obtain ⟨kdb, _, knst, _⟩ := loadStack_db w u self s
+    have := ih (specUnion m (loadStack w u self s).view) (fl ++ [(loadStack w u self s).flavs]) hinv
+      (by intro x hx; rw [knst]; exact hss x (by simp [hx]))
+      (by
+        intro d hd
+        rw [kdb]
+        simp only [specUnion, List.mem_append] at hd
+        rcases hd with hd | hd
+        · exact hm d hd
+        · exact loadStack_sub h u self (hss s (by simp)) d hd)
+    rw [kdb] at this
+    exact this
+
+theorem load_sub {w : World} (h : CacheInv w) (u : User) (self : Flav) :
+    ∀ d ∈ (load w u self).1.decls, d ∈ w.db.decls :=
+  loadFrom_sub u self (allStacks w.nst) Spec.empty [] h (by intro s hs; simpa [allStacks] using hs)
+    (by intro d hd; simp [Spec.empty] at hd)
+
+/-- `step_run` with the extra fact that the view shows only declarations the files hold -/
+theorem step_run_sub {w : World} (h : CacheInv w) (u : User) (c : Cmd) :
+    ∃ m : Spec, ViewInv w.nst c.self m w.db ∧ (∀ d ∈ m.decls, d ∈ w.db.decls) ∧
+      (stepG true w (.run u c none)).out = (run w.nst c ⟨w.db, m, w.dirs, []⟩).1 ∧
+      (stepG true w (.run u c none)).w.db = (run w.nst c ⟨w.db, m, w.dirs, []⟩).2.db := by
+  simp only [stepG]
+  obtain ⟨_, hv⟩ := load_inv h u c.self
+  have hsub := load_sub h u c.self
+  obtain ⟨hdb, hdirs, _⟩ := load_db w u c.self
+  generalize load w u c.self = l at hv hdb hdirs hsub
+  obtain ⟨m, fl, w1⟩ := l
+  dsimp only at hv hdb hdirs hsub ⊢
+  refine ⟨m, hv, hsub, by rw [hdb, hdirs], ?_⟩
+  unfold replay
+  dsimp only
+  rw [foldl_applyW_db_eq true u _ (w1, m) (by dsimp only; rw [hdb]; exact h.dbinv)]
+  dsimp only
+  rw [hdb, hdirs]
+  have hb := run_base w.nst c ⟨w.db, m, w.dirs, []⟩
+  simp only [Proc.db]
+  rw [hb.1]
+
+/-- a command whose `Db.run` leaves the trace empty leaves database, record times and directories alone
+(whether it is killed or not) -/
+theorem step_of_empty_run (w : World) (u : User) (c : Cmd) (crash : Option Nat)
+    (h : ∀ m : Spec, (stepG true w (.run u c crash)).out = (run w.nst c ⟨w.db, m, w.dirs, []⟩).1 →
+      (run w.nst c ⟨w.db, m, w.dirs, []⟩).2.tr = []) :
+    (stepG true w (.run u c crash)).w.db = w.db ∧ (stepG true w (.run u c crash)).w.dirs = w.dirs ∧
+      (stepG true w (.run u c crash)).w.touch = w.touch := by
+  revert h
+  simp only [stepG]
+  obtain ⟨hdb, hdirs, _⟩ := load_db w u c.self
+  have ht := load_touch w u c.self
+  generalize load w u c.self = l at hdb hdirs ht
+  obtain ⟨m, fl, w1⟩ := l
+  dsimp only at hdb hdirs ht ⊢
+  intro h
+  have htr := h m (by rw [hdb, hdirs])
+  rw [hdb, hdirs, htr]
+  cases crash with
+  | none => exact ⟨hdb, hdirs, ht⟩
+  | some k =>
+    have : cutAfterDb [] k = ([], none) := by cases k <;> rfl
+    dsimp only
+    rw [this]
+    exact ⟨hdb, hdirs, ht⟩
+
 end EupsModel.Cache
